@@ -147,8 +147,20 @@ class ModuleSweep:
 
     def run(self):
         f = func(self.mod.validate)
+        # the lengths at which the corpus has valid numbers come first: under a time limit the units most likely to have
+        # accepting paths are then the ones that get explored (all lengths are still scheduled)
+        from . import corpus
+        likely = set()
+        for x in corpus.valid_numbers(self.modname, 60):
+            likely.add(len(x))
+            try:
+                likely.add(len(self.mod.compact(x)))
+            except Exception:      # noqa: B902
+                pass
+        first = sorted(n_ for n_ in likely if 0 <= n_ <= self.nmax)
+        order = first + [n_ for n_ in range(0, self.nmax + 1) if n_ not in likely] + ['long']
         for opts in option_valuations(self.mod):
-            for n in list(range(0, self.nmax + 1)) + ['long']:
+            for n in order:
                 if time.time() - self.t0 > self.time_limit:
                     self.undecided.append(dict(opts=repr(opts) if opts else '', n=n, why='module time limit'))
                     self.units.append(dict(opts=repr(opts) if opts else '', n=n, status='module time limit', paths=0, accept=0, secs=0.0))
@@ -231,6 +243,13 @@ class ModuleSweep:
                 op = rnd.choice('sdi')
                 inputs.append(x[:i] + rnd.choice(alpha) + x[i + 1:] if op == 's' else x[:i] + x[i + 1:] if op == 'd' else x[:i] + rnd.choice(alpha) + x[i:])
             inputs += [x + '\n', ' ' + x, x.lower(), x + '\u0660']
+            # the same number written with other decimal digits of equal value (int() and \\d accept them, clean() maps only some)
+            dpos = [i for i, c in enumerate(x) if c in '0123456789']
+            for base in (0x0660, 0x0966, 0xFF10, 0x1D7CE):
+                if dpos:
+                    inputs.append(''.join(chr(base + ord(c) - 48) if c in '0123456789' else c for c in x))
+                    for i in dpos[:14] if base == 0x0660 else dpos[:2] + dpos[-1:]:
+                        inputs.append(x[:i] + chr(base + ord(x[i]) - 48) + x[i + 1:])
         # the rest of the corpus (the number lists of tests/*.doctest) as it stands, and synthesised valid numbers: cheap
         first = set(corpus.valid_numbers(self.modname, 10 if self.tier == 'quick' else 40))
         more = [x for x in corpus.valid_numbers(self.modname, 400 if self.tier == 'quick' else 4000) if x not in first]
